@@ -93,20 +93,34 @@ const EKEYS: [&str; 3] = ["k0", "k1", "k2"];
 const MAXNODE: u64 = 6;
 
 fn battery(r: &QueryRouter) -> (String, String, String) {
-    let mut rel = vec![canon(&exec(r, "SHOW TABLES"))];
-    for t in TABLES {
-        rel.push(canon(&exec(r, &format!("SELECT * FROM {t}"))));
-        rel.push(canon(&exec(r, &format!("SELECT * FROM {t} WHERE id = 1"))));
-    }
-    let mut g = vec![canon(&exec(r, "NODE LIST")), canon(&exec(r, "EDGE LIST"))];
+    // The router treats every NODE / EDGE / EMBED statement (reads included) as a write for its query cache.
+    // So: first the cacheable statements (SELECT, NEIGHBORS, SIMILAR) -- answered from the cache when the router
+    // thinks it may --, then the others, then the cacheable ones once more so that they are in the cache when the
+    // next statement of the script runs.
+    let cacheable = |rel: &mut Vec<String>, g: &mut Vec<String>, v: &mut Vec<String>| {
+        for t in TABLES {
+            rel.push(canon(&exec(r, &format!("SELECT * FROM {t}"))));
+            rel.push(canon(&exec(r, &format!("SELECT * FROM {t} WHERE id = 1"))));
+        }
+        for n in 1..=MAXNODE {
+            g.push(canon(&exec(r, &format!("NEIGHBORS {n}"))));
+        }
+        g.push(canon(&exec(r, "NEIGHBORS 1 OUTGOING")));
+        v.push(canon(&exec(r, "SIMILAR [1.0, 0.0, 0.0] LIMIT 5")));
+    };
+    let (mut rel, mut g, mut v) = (vec![], vec![], vec![]);
+    cacheable(&mut rel, &mut g, &mut v);
+    rel.push(canon(&exec(r, "SHOW TABLES")));
+    g.push(canon(&exec(r, "NODE LIST")));
+    g.push(canon(&exec(r, "EDGE LIST")));
     for n in 1..=MAXNODE {
         g.push(canon(&exec(r, &format!("NODE GET {n}"))));
-        g.push(canon(&exec(r, &format!("NEIGHBORS {n}"))));
     }
-    let mut v = vec![canon(&exec(r, "SHOW EMBEDDINGS")), canon(&exec(r, "SIMILAR [1.0, 0.0, 0.0] LIMIT 5"))];
+    v.push(canon(&exec(r, "SHOW EMBEDDINGS")));
     for k in EKEYS {
         v.push(canon(&exec(r, &format!("EMBED GET '{k}'"))));
     }
+    cacheable(&mut rel, &mut g, &mut v);
     (rel.join("|"), g.join("|"), v.join("|"))
 }
 
